@@ -22,7 +22,19 @@ func register(id, expl string, f checkFn) {
 
 var onlyRule string
 
+// pinEnv selects the pinned offline toolchain for go/packages (which shells out to `go`).
+func pinEnv() {
+	const tc = "/opt/veriftools/go1.26.8/bin"
+	if st, err := os.Stat(tc); err == nil && st.IsDir() && !strings.HasPrefix(os.Getenv("PATH"), tc+":") {
+		os.Setenv("PATH", tc+":"+os.Getenv("PATH"))
+	}
+	for k, v := range map[string]string{"GOTOOLCHAIN": "local", "GOFLAGS": "-mod=mod", "GOPROXY": "off", "GOSUMDB": "off", "GOWORK": "off"} {
+		os.Setenv(k, v)
+	}
+}
+
 func main() {
+	pinEnv()
 	if len(os.Args) < 2 {
 		usage()
 	}
